@@ -445,7 +445,7 @@ func genXsd(leanRoot string) {
 				b, ok1 := intLit(c.Args[1])
 				bs, ok2 := intLit(c.Args[2])
 				ac := argCollapse(fn, c.Args[0])
-				if ok1 && ok2 && b >= 0 && bs >= 0 && ac >= 0 && returnsConversion(fn, t.goName) {
+				if ok1 && ok2 && b >= 0 && bs >= 0 && ac >= 0 && returnsConversion(fn, t.goName, c) {
 					switch {
 					case isSel(c.Fun, "strconv", "ParseInt"):
 						parserK = ".parseInt"
@@ -471,7 +471,7 @@ func genXsd(leanRoot string) {
 				eqFmt, eqConv, eqBase = intFormatter(e)
 			}
 		}
-		fmt.Fprintf(&sb, "  | .%s => { parser := %s, collapse := %s, base := %d, bitSize := %d, goType := %s,\n      objFmt := %s, objConv := %s, objBase := %d, eqFmt := %s, eqConv := %s, eqBase := %d,\n      datatype := %s, eqDatatypeSame := %s }\n",
+		fmt.Fprintf(&sb, "  | .%s => {\n      parser := %s, collapse := %s, base := %d, bitSize := %d, goType := %s,\n      objFmt := %s, objConv := %s, objBase := %d, eqFmt := %s, eqConv := %s, eqBase := %d,\n      datatype := %s, eqDatatypeSame := %s }\n",
 			t.lean, parserK, leanBool(collapse), base, bits, goType, objFmt, objConv, objBase, eqFmt, eqConv, eqBase,
 			leanBytes(datatypeOf(t.zero)), leanBool(p.sameDt(t.goName, t.zero)))
 	}
@@ -500,7 +500,7 @@ func genXsd(leanRoot string) {
 				bs, ok := intLit(c.Args[1])
 				ac := argCollapse(fn, c.Args[0])
 				src, reOK := p.lexCheck(fn, c.Pos())
-				if ok && bs >= 0 && ac >= 0 && reOK && returnsConversion(fn, t.goName) {
+				if ok && bs >= 0 && ac >= 0 && reOK && returnsConversion(fn, t.goName, c) {
 					parserK, collapse, bits, re = ".parseFloat", ac == 1, bs, src
 				}
 			}
@@ -559,7 +559,7 @@ func genXsd(leanRoot string) {
 				})
 			}
 		}
-		fmt.Fprintf(&sb, "  | .%s => { parser := %s, collapse := %s, bitSize := %d, lexRE := %s,\n      objFmt := %s, objBits := %d, eqFmt := %s, eqBits := %d,\n      datatype := %s, eqDatatypeSame := %s }\n",
+		fmt.Fprintf(&sb, "  | .%s => {\n      parser := %s, collapse := %s, bitSize := %d, lexRE := %s,\n      objFmt := %s, objBits := %d, eqFmt := %s, eqBits := %d,\n      datatype := %s, eqDatatypeSame := %s }\n",
 			t.lean, parserK, leanBool(collapse), bits, leanOptBytes(re), objFmt, objBits, eqFmt, eqBits,
 			leanBytes(datatypeOf(t.mk(0))), leanBool(p.sameDt(t.goName, t.mk(1.5))))
 	}
@@ -653,7 +653,7 @@ func genXsd(leanRoot string) {
 		for i, l := range layouts {
 			parts[i] = leanBytes(l)
 		}
-		fmt.Fprintf(&sb, "  | .%s => { collapse := %s, layouts := [%s],\n      datatype := %s, eqDatatypeSame := %s }\n",
+		fmt.Fprintf(&sb, "  | .%s => {\n      collapse := %s, layouts := [%s],\n      datatype := %s, eqDatatypeSame := %s }\n",
 			t.lean, leanBool(collapse), strings.Join(parts, ", "), leanBytes(datatypeOf(t.probe)), leanBool(p.sameDt(t.goName, t.probe)))
 	}
 
@@ -717,7 +717,7 @@ func genXsd(leanRoot string) {
 			}
 			return "[" + strings.Join(ps, ", ") + "]"
 		}
-		fmt.Fprintf(&sb, "\ndef xsdBoolFact : BoolFact :=\n  { collapse := %s, trueCases := %s, falseCases := %s,\n    lexTrue := %s, lexFalse := %s, eqTrue := %s, eqFalse := %s,\n    datatype := %s, eqDatatypeSame := %s }\n",
+		fmt.Fprintf(&sb, "\ndef xsdBoolFact : BoolFact := {\n    collapse := %s, trueCases := %s, falseCases := %s,\n    lexTrue := %s, lexFalse := %s, eqTrue := %s, eqFalse := %s,\n    datatype := %s, eqDatatypeSame := %s }\n",
 			leanBool(collapse), list(tc), list(fc), leanBytes(lexOf(xsdtype.Boolean(true))), leanBytes(lexOf(xsdtype.Boolean(false))),
 			leanBytes(eqT), leanBytes(eqF), leanBytes(string(dt)), leanBool(p.sameDt("Boolean", xsdtype.Boolean(true))))
 	}
@@ -747,17 +747,29 @@ func genXsd(leanRoot string) {
 			}
 		}
 		probe := xsdtype.Duration{Years: 1}
-		fmt.Fprintf(&sb, "\ndef xsdDurationFact : DurationFact :=\n  { collapse := %s, regex := %s,\n    datatype := %s, eqDatatypeSame := %s }\n",
+		fmt.Fprintf(&sb, "\ndef xsdDurationFact : DurationFact := {\n    collapse := %s, regex := %s,\n    datatype := %s, eqDatatypeSame := %s }\n",
 			leanBool(collapse), leanBytes(re), leanBytes(datatypeOf(probe)), leanBool(p.sameDt("Duration", probe)))
 	}
 
-	sb.WriteString("\ndef xsdFacts : Facts :=\n  { int := xsdIntFact, float := xsdFloatFact, str := xsdStrFact, time := xsdTimeFact,\n    bool := xsdBoolFact, duration := xsdDurationFact }\n\nend RdfModel.Gen\n")
+	sb.WriteString("\ndef xsdFacts : Facts := {\n    int := xsdIntFact, float := xsdFloatFact, str := xsdStrFact, time := xsdTimeFact,\n    bool := xsdBoolFact, duration := xsdDurationFact }\n\nend RdfModel.Gen\n")
 	writeIfChanged(filepath.Join(leanRoot, "RdfModel", "Gen", "XsdFacts.lean"), sb.String())
 }
 
-// returnsConversion: the function's last statement is `return T(<ident>), nil`.
-func returnsConversion(fn *ast.FuncDecl, goName string) bool {
+// returnsConversion: the function's last statement is `return T(<x>), nil` where x is the
+// first result of the (only) strconv call `x, err := strconv.Parse…(…)`.
+func returnsConversion(fn *ast.FuncDecl, goName string, call *ast.CallExpr) bool {
 	if len(fn.Body.List) == 0 {
+		return false
+	}
+	resName := ""
+	for _, st := range fn.Body.List {
+		if as, ok := st.(*ast.AssignStmt); ok && len(as.Rhs) == 1 && as.Rhs[0] == call && len(as.Lhs) == 2 {
+			if id, ok := as.Lhs[0].(*ast.Ident); ok {
+				resName = id.Name
+			}
+		}
+	}
+	if resName == "" {
 		return false
 	}
 	ret, ok := fn.Body.List[len(fn.Body.List)-1].(*ast.ReturnStmt)
@@ -772,7 +784,7 @@ func returnsConversion(fn *ast.FuncDecl, goName string) bool {
 	if !ok || id.Name != goName {
 		return false
 	}
-	_, isIdent := c.Args[0].(*ast.Ident)
+	arg, isIdent := c.Args[0].(*ast.Ident)
 	nilID, ok := ret.Results[1].(*ast.Ident)
-	return isIdent && ok && nilID.Name == "nil"
+	return isIdent && arg.Name == resName && ok && nilID.Name == "nil"
 }
